@@ -49,7 +49,7 @@ def bounds(tier):
   return dict(classes=list(harness.PE_CLASSES), level_sets=[LEVELS[k] for k in ((1, 2, 3, 4) if tier == 'quick' else (1, 2, 3, 4, 5))],
               grids='cubic-dealiased M=7 (dry) / (7,8,36,18) (moist, cloud); real + padded fast layout',
               orography=['none', 'degree-2'], tracer_sets=['minimal', 'plus two passive tracers'], reference_profiles='5 (+ an isothermal-stratosphere profile with two equal adjacent layers when K >= 3); every profile also through ONE re-used equation object whose reference_temperature field is rebound',
-              state_lattice='depth 2, lmax=1 (depth 3 on one configuration%s)' % ('' if tier == 'quick' else ' per class'),
+              state_lattice='depth 2, lmax=1 (depth 3 on one dry configuration%s)' % ('' if tier == 'quick' else ' and on one configuration per class'),
               top_wavenumber_states='depth-2 lattice over the lmax=1 alphabet + excitations of every field at l = L-2 (3 orders m, top and bottom level), moisture / tracer fields with signal at l = L-2; metamorphic oracle only')
 
 
@@ -72,10 +72,10 @@ def units(tier, seed):
     # (admissible states; products alias there, so only the metamorphic oracle applies)
     for K in ((3,) if tier == 'quick' else (2, 3, 4)):
       for impl in ('real', ['fast', 2, True, True]):
-        if tier == 'quick' and impl != 'real' and not moist:
+        if tier == 'quick' and impl != 'real':
           continue
         us.append(dict(cls=cls, K=K, shape=shape, impl=impl, orog=True, extra=(tier == 'thorough'), depth=2, palette=pal[0], top=True))
-    deep = (3,) if tier == 'quick' and cls in ('PrimitiveEquations', 'MoistPrimitiveEquationsWithCloudMoisture') else ((3,) if tier == 'thorough' else ())
+    deep = (3,) if tier == 'quick' and cls in ('PrimitiveEquations',) else ((3,) if tier == 'thorough' else ())
     for K in deep:
       n = len(harness.pe_alphabet(K, 1, shape[0]))
       total = sum(_count(n, d) for d in range(4))
@@ -134,6 +134,9 @@ def work(unit, rec):
   alphabet = harness.pe_alphabet(K, 1, M)
   top = bool(unit.get('top'))
   if top:
+    # cost: the top-wavenumber lattice keeps the surface-pressure excitations of the l <= 1 alphabet (the defects of this
+    # kind need grad ln ps != 0) and adds the l = L-2 excitations of every field
+    alphabet = [e for e in alphabet if e[0] == 'lnps']
     for field in ('vorticity', 'divergence', 'temperature', 'lnps'):
       for k in ((0,) if field == 'lnps' else sorted({0, K - 1})):
         for i in (0, 1, 2 * M - 2):
@@ -165,7 +168,8 @@ def work(unit, rec):
   reused = harness.make_pe(cls, coords, profs[0], orog, specs, impl=impl)
   rebind_ok = not getattr(type(reused), '__dataclass_params__', None) or not type(reused).__dataclass_params__.frozen
   results_reused = []
-  if rebind_ok:
+  # (cost) the re-used object runs on the depth-2 lattices with orography and the minimal tracer set, real layout
+  if rebind_ok and not top and unit['depth'] == 2 and unit['orog'] and not unit['extra'] and impl == 'real':
     for tref in profs:
       reused.reference_temperature = np.asarray(tref, dtype=np.float64)
       temp_var = st['temperature'].copy(); temp_var[:, :, 0, 0] += harness.SQRT4PI * (T_abs - tref)
